@@ -70,13 +70,13 @@ theorem ofString_plainSpec (d : D128) (hwf : WF d) (hfit : d.coeff * 10 ^ d.exp.
   rw [plainSpec_eq d c rest hcr]
   by_cases h0 : d.exp ≥ 0
   · rw [if_pos h0]
-    have e1 : signOf d.neg ++ c :: rest ++ zeros d.exp.toNat = signOf d.neg ++ c :: (rest ++ zeros d.exp.toNat) := by simp
-    have hall : AllDigits (c :: (rest ++ zeros d.exp.toNat)) := by
-      have := hds.append (allDigits_zeros d.exp.toNat)
+    have e1 : signOf d.neg ++ c :: rest ++ zeros (zexp d) = signOf d.neg ++ c :: (rest ++ zeros (zexp d)) := by simp
+    have hall : AllDigits (c :: (rest ++ zeros (zexp d))) := by
+      have := hds.append (allDigits_zeros (zexp d))
       simpa using this
-    have hrd : readNat (c :: (rest ++ zeros d.exp.toNat) ++ []) = d.coeff * 10 ^ d.exp.toNat := by
-      have e2 : c :: (rest ++ zeros d.exp.toNat) ++ [] = (c :: rest) ++ zeros d.exp.toNat := by simp
-      rw [e2, readNat_append_zeros, hval]
+    have hrd : readNat (c :: (rest ++ zeros (zexp d)) ++ []) = d.coeff * 10 ^ d.exp.toNat := by
+      have e2 : c :: (rest ++ zeros (zexp d)) ++ [] = (c :: rest) ++ zeros (zexp d) := by simp
+      rw [e2, readNat_append_zeros, hval, coeff_zexp]
     rw [e1, ofString_int _ _ _ hall, ofDigits_exact _ _ _ (by rw [hrd]; exact hfit) (by simp), hrd]
     have : min d.exp 0 = 0 := by omega
     rw [this]; simp
@@ -145,13 +145,13 @@ theorem ofString_plainSpec_pos (d : D128) (hwf : WF d) (h0 : d.exp ≥ 0) :
   have hds : AllDigits (c :: rest) := hcr ▸ allDigits_natDigits d.coeff
   have hval : readNat (c :: rest) = d.coeff := hcr ▸ readNat_natDigits d.coeff
   rw [plainSpec_eq d c rest hcr, if_pos h0]
-  have e1 : signOf d.neg ++ c :: rest ++ zeros d.exp.toNat = signOf d.neg ++ c :: (rest ++ zeros d.exp.toNat) := by simp
-  have hall : AllDigits (c :: (rest ++ zeros d.exp.toNat)) := by
-    have := hds.append (allDigits_zeros d.exp.toNat)
+  have e1 : signOf d.neg ++ c :: rest ++ zeros (zexp d) = signOf d.neg ++ c :: (rest ++ zeros (zexp d)) := by simp
+  have hall : AllDigits (c :: (rest ++ zeros (zexp d))) := by
+    have := hds.append (allDigits_zeros (zexp d))
     simpa using this
-  have hrd : readNat (c :: (rest ++ zeros d.exp.toNat) ++ []) = d.coeff * 10 ^ d.exp.toNat := by
-    have e2 : c :: (rest ++ zeros d.exp.toNat) ++ [] = (c :: rest) ++ zeros d.exp.toNat := by simp
-    rw [e2, readNat_append_zeros, hval]
+  have hrd : readNat (c :: (rest ++ zeros (zexp d)) ++ []) = d.coeff * 10 ^ d.exp.toNat := by
+    have e2 : c :: (rest ++ zeros (zexp d)) ++ [] = (c :: rest) ++ zeros (zexp d) := by simp
+    rw [e2, readNat_append_zeros, hval, coeff_zexp]
   rw [e1, ofString_int _ _ _ hall]
   unfold ofDigits
   simp only []
